@@ -195,7 +195,7 @@ func runPgParse(r *core.Run) {
 					p := 5 + i + 1 + j + 1
 					declared = int(out[p])<<8 | int(out[p+1])
 					if carried := len(out) - p - 2; carried != 4*declared {
-						r.Fail("pg-parse-rewrite", fmt.Sprintf("%s: the forwarded message is MALFORMED – it declares %d parameter types and carries %d bytes of OIDs (%d OIDs)",
+						r.Fail("pg-parse-malformed", fmt.Sprintf("%s: the forwarded message is MALFORMED – it declares %d parameter types and carries %d bytes of OIDs (%d OIDs)",
 							what, declared, carried, carried/4))
 					} else {
 						r.Fail("pg-parse-rewrite", fmt.Sprintf("%s: the forwarded message is well-formed (%d parameter types) but is not the expected rewrite (query / re-typed parameters): the specification decoder reads %s",
